@@ -70,6 +70,11 @@ ENSURES = [
     "implies(%s and unsplit, result == obj(ite(%s, %s[2:], %s)))" % (OK, NOSCHEME, UNSPLIT, UNSPLIT),
 ]
 
+NH1 = "uf('re_sub', 'Str', CONTROL_CHARS_RE, '', old(hostname).strip().lower())"
+NH2 = "uf('re_sub', 'Str', ite(normalize_amp, IRRELEVANT_SUBDOMAIN_AMP_RE, IRRELEVANT_SUBDOMAIN_RE), '', %s)" % NH1
+NH3 = "ite(normalize_amp and %s.startswith('amp-'), %s[4:], %s)" % (NH2, NH2, NH2)
+GU = "uf('urlsplit', 'Obj', uf('ensure_protocol', 'Str', ite(infer_redirection, uf('infer_redirection', 'Str', old(url)), old(url)).strip()))"
+
 MODULE = {
     "file": "ural/normalize_url.py", "auto": True,
     "bound": {"m": "Int"},
@@ -87,6 +92,7 @@ MODULE = {
         "SplitResult": lib("SplitResult", ["scheme", "netloc", "path", "query", "fragment"], ["Str", "Str", "Str", "Str", "Str"], "Obj"),
         "urlunsplit": lib("urlunsplit", ["parts"], ["Obj"], "Str"),
         "resolve": lib("resolve", ["url"], ["Str"], "Str", uf="infer_redirection"),
+        "ensure_protocol": lib("ensure_protocol", ["url"], ["Str"], "Str"),
         "upper_quoted": lib("upper_quoted", ["string"], ["Str"], "Str"),
         "is_facebook_url": lib("is_facebook_url", ["url"], ["Str"], "Bool"),
         "is_youtube_url": lib("is_youtube_url", ["url"], ["Str"], "Bool"),
@@ -113,6 +119,24 @@ MODULE = {
                    "ensures": ["result == uf('sorted_by', 'Seq[%s]', xs, key)" % ITEM]},
     },
     "functions": {
+        "normalize_hostname": {
+            "types": {"hostname": "Str", "normalize_amp": "Bool", "pattern": "Obj"}, "returns": "Str",
+            # strip + lower-case, control characters out, irrelevant labels out (AMP ones iff normalize_amp), leading 'amp-' out iff normalize_amp, IDNA-decoded
+            "ensures": ["result == uf('decode_punycode_hostname', 'Str', %s)" % NH3],
+            # naming of the (deterministic) result for callers
+            "assumed_ensures": ["result == uf('normalize_hostname', 'Str', old(hostname), normalize_amp)"],
+        },
+        "get_normalized_hostname": {
+            "types": {"url": "Str", "normalize_amp": "Bool", "infer_redirection": "Bool", "splitted": "Obj", "g_ok": "Bool"},
+            "returns": "Opt[Str]", "isinstance": {"url,SplitResult": False},
+            "ghost_entry": ["g_ok = False"],
+            "ghost_after": {"splitted = urlsplit(ensure_protocol(url.strip()))": ["g_ok = True"]},
+            "ensures": [
+                "implies(not g_ok, result is None)",
+                "implies(g_ok and not truthy(%s.hostname), result is None)" % GU,
+                "implies(g_ok and truthy(%s.hostname), result == opt(uf('normalize_hostname', 'Str', some(%s.hostname), normalize_amp)))" % (GU, GU),
+            ],
+        },
         "normalize_url": {
             "types": {"url": "Str", "sort_query": "Bool", "strip_authentication": "Bool", "strip_trailing_slash": "Bool", "strip_index": "Bool",
                       "strip_protocol": "Bool", "strip_irrelevant_subdomains": "Bool", "strip_fragment": "Val", "normalize_amp": "Bool",
